@@ -17,6 +17,9 @@ from . import builds, e1
 from .prng import Rng, hash64
 
 VERIF = builds.VERIF
+# evidence and replay files of runs against a scratch copy of the repository (self-tests, background sweeps) must not
+# overwrite those of the registered checks, which always run against /repo itself
+OUTDIR = VERIF if os.path.realpath(builds.REPO) == '/repo' else builds.BUILD
 SHM = '/dev/shm' if os.path.isdir('/dev/shm') else '/var/tmp'
 
 
@@ -388,7 +391,7 @@ def _do_run(check, check_mod, pool, tier, seed, t_start, max_cases, nworkers, ti
     new_violations = []
     known_hits = []
     nondet = False
-    os.makedirs(os.path.join(VERIF, 'replays'), exist_ok=True)
+    os.makedirs(os.path.join(OUTDIR, 'replays'), exist_ok=True)
     gkeys = sorted(groups, key=lambda k: groups[k][0][0])
     processed = 0
     unprocessed = []
@@ -434,7 +437,7 @@ def _do_run(check, check_mod, pool, tier, seed, t_start, max_cases, nworkers, ti
               'minimised': {'reruns': reruns, 'from_size': len(cj), 'to_size': len(dumps(cur))},
               'engine': check.engine, 'check_module': check_mod}
         fname = '%s-%d-%d-%s.json' % (check.id, seed, i, digest(key)[:6])
-        rpath = os.path.join(VERIF, 'replays', fname)
+        rpath = os.path.join(OUTDIR, 'replays', fname)
         with open(rpath, 'w') as f:
             f.write(dumps(rp, indent=1))
         # fresh-process replay
@@ -485,8 +488,8 @@ def _do_run(check, check_mod, pool, tier, seed, t_start, max_cases, nworkers, ti
         'wall_s': round(wall, 2),
         'violations': len(new_violations),
     }
-    os.makedirs(os.path.join(VERIF, 'evidence'), exist_ok=True)
-    with open(os.path.join(VERIF, 'evidence', check.id + '.json'), 'w') as f:
+    os.makedirs(os.path.join(OUTDIR, 'evidence'), exist_ok=True)
+    with open(os.path.join(OUTDIR, 'evidence', check.id + '.json'), 'w') as f:
         json.dump(ev, f, indent=1, sort_keys=True)
         f.write('\n')
 
